@@ -17,7 +17,7 @@ class KeyCalc(object):
             key_list = key_spec
             key_spec = ':'.join('{%s}' % key for key in key_spec)
         else:
-            key_list = re.findall(r'\{(.*?)\}', key_spec)
+            key_list = [re.split('[!:]', key)[0] for key in re.findall(r'\{(.*?)\}', key_spec)]
         self.key_spec = key_spec
         self.key_list = key_list
 
